@@ -81,28 +81,71 @@ def digits4 (m : Nat) : List Char :=
 def stripZeros (l : List Char) : List Char := (l.reverse.dropWhile (· == '0')).reverse
 
 /-- digits `d₁d₂…` → `d₁.d₂…` (no point when nothing follows) -/
-def withPoint (ip fp : List Char) : String :=
-  if fp.isEmpty then String.ofList ip else String.ofList ip ++ "." ++ String.ofList fp
+def withPointL (ip fp : List Char) : List Char :=
+  if fp.isEmpty then ip else ip ++ '.' :: fp
 
-/-- `%.4g` of a positive number given by its decomposition: fixed notation when `-4 ≤ e < 4`, else `d.ddde±XX` -/
-def Dec.render (x : Dec) : String :=
+/-- `%.4g` of a positive number given by its decomposition, as a character list: fixed notation when `-4 ≤ e < 4`,
+    else `d.ddde±XX` -/
+def Dec.renderL (x : Dec) : List Char :=
   let ds := digits4 x.m
   if -4 ≤ x.e ∧ x.e < 4 then
     if 0 ≤ x.e then
       let k := x.e.toNat + 1
-      withPoint (ds.take k) (stripZeros (ds.drop k))
+      withPointL (ds.take k) (stripZeros (ds.drop k))
     else
-      "0." ++ String.ofList (List.replicate ((-x.e).toNat - 1) '0') ++ String.ofList (stripZeros ds)
+      '0' :: '.' :: (List.replicate ((-x.e).toNat - 1) '0' ++ stripZeros ds)
   else
     let s := stripZeros ds
     let ea := x.e.natAbs
-    withPoint (s.take 1) (s.drop 1) ++ "e" ++ (if x.e < 0 then "-" else "+") ++ (if ea < 10 then "0" else "") ++ toString ea
+    withPointL (s.take 1) (s.drop 1) ++ 'e' :: (if x.e < 0 then '-' else '+') :: ((if ea < 10 then ['0'] else []) ++ Nat.toDigits 10 ea)
+
+def Dec.render (x : Dec) : String := String.ofList x.renderL
+
+/-- Python `f"{x:.4g}"` for the float with exact value `q`, as a character list -/
+def fmt4gL (q : Rat) : List Char :=
+  if q = 0 then ['0']
+  else if q < 0 then '-' :: (dec4pos q.num.natAbs q.den).renderL
+  else (dec4pos q.num.natAbs q.den).renderL
 
 /-- Python `f"{x:.4g}"` for the float with exact value `q` -/
-def fmt4g (q : Rat) : String :=
-  if q = 0 then "0"
-  else if q < 0 then "-" ++ (dec4pos q.num.natAbs q.den).render
-  else (dec4pos q.num.natAbs q.den).render
+def fmt4g (q : Rat) : String := String.ofList (fmt4gL q)
+
+/-! ### (a') reading a decimal numeral back: `float(s)` / the grammar's `floating_point_number` on `ddd[.ddd][e±dd]` -/
+
+/-- split at the first occurrence of `c` (the separator is dropped); `none` = no occurrence -/
+def splitAt1 (c : Char) (l : List Char) : List Char × Option (List Char) :=
+  match l.span (· != c) with
+  | (a, []) => (a, none)
+  | (a, _ :: b) => (a, some b)
+
+def allDigits (l : List Char) : Bool := l.all Char.isDigit
+
+/-- value of `ip.fp` -/
+def decVal (ip fp : List Char) : Rat :=
+  (Nat.ofDigitChars 10 ip 0 : Nat) + ((Nat.ofDigitChars 10 fp 0 : Nat) : Rat) / ((10 ^ fp.length : Nat) : Rat)
+
+/-- the exponent part `e(+|-)dd` applied to a mantissa value -/
+def applyExp (m : Rat) : Option (List Char) → Option Rat
+  | none => some m
+  | some ('+' :: ds) => if ds.isEmpty || !allDigits ds then none else some (m * pow10 (Nat.ofDigitChars 10 ds 0 : Nat))
+  | some ('-' :: ds) => if ds.isEmpty || !allDigits ds then none else some (m * pow10 (-((Nat.ofDigitChars 10 ds 0 : Nat) : Int)))
+  | some _ => none
+
+/-- an unsigned numeral `ddd[.ddd][e(+|-)dd]`; anything else is rejected -/
+def readPos (l : List Char) : Option Rat :=
+  let (mant, ex) := splitAt1 'e' l
+  let (ip, fp) := splitAt1 '.' mant
+  let fpd := fp.getD []
+  if ip.isEmpty || !allDigits ip || !allDigits fpd || (fp.isSome && fpd.isEmpty) then none
+  else applyExp (decVal ip fpd) ex
+
+/-- a signed numeral -/
+def readNumL (l : List Char) : Option Rat :=
+  match l with
+  | '-' :: r => (readPos r).map (fun q => -q)
+  | r => readPos r
+
+def readNum (s : String) : Option Rat := readNumL s.toList
 
 /-! ### (b) the string printer -/
 
